@@ -160,6 +160,24 @@ def lookupExpressionsRow (n bf : Nat) (beta gamma : F) (A S A' S' z : List F) (i
   [l0 * (1 - zc), lLast * (zc * zc - zc), (left - right) * active, l0 * (a' - s'),
    (a' - s') * (a' - aInv) * active]
 
+/-- `lookup.rs: Evaluated::expressions` as a function of the EVALUATIONS the verifier holds
+(`l_0`, `l_last`, `l_blind`, `β`, `γ`, compressed input/table `a`, `s`, `permuted_input_eval`,
+`permuted_input_inv_eval`, `permuted_table_eval`, `product_eval`, `product_next_eval`) — the literal
+mirror of the Rust closure chain; `lookupExpressionsRow` is this function on the values of row `i`
+(`lookupExpressionsRow_eq_at`). -/
+def lookupExprsAt (l0 lLast lBlind beta gamma a s a' aInv s' zc zn : F) : List F :=
+  let active := 1 - (lLast + lBlind)
+  let left := zn * (a' + beta) * (s' + gamma)
+  let right := zc * (a + beta) * (s + gamma)
+  [l0 * (1 - zc), lLast * (zc * zc - zc), (left - right) * active, l0 * (a' - s'),
+   (a' - s') * (a' - aInv) * active]
+
+theorem lookupExpressionsRow_eq_at (n bf : Nat) (beta gamma : F) (A S A' S' z : List F) (i : Nat) :
+    lookupExpressionsRow n bf beta gamma A S A' S' z i =
+      lookupExprsAt (if i = 0 then 1 else 0) (if i = n - (bf + 1) then 1 else 0)
+        (if n - (bf + 1) < i then 1 else 0) beta gamma (A.getD i 0) (S.getD i 0) (A'.getD i 0)
+        (A'.getD ((i + (n - 1)) % n) 0) (S'.getD i 0) (z.getD i 0) (z.getD ((i + 1) % n) 0) := rfl
+
 /-! ## trash argument -/
 
 /-- `acc + &expression` on Lagrange polynomials (`zip` of the value vectors). -/
@@ -187,6 +205,17 @@ def compressRow (challenge : F) (exprs : List (List F)) (i : Nat) : F :=
 /-- `trash.rs: Evaluated::expressions` on row `i`: `compressed − (1 − q)·trash`. -/
 def trashExpressionRow (challenge : F) (q : List F) (exprs : List (List F)) (trash : List F) (i : Nat) : F :=
   compressRow challenge exprs i - (1 - q.getD i 0) * trash.getD i 0
+
+/-- `trash.rs: Evaluated::expressions` as a function of the evaluations: `compressed − (1 − q)·trash`
+with `compressed = fold(ZERO, |acc, eval| acc * trash_challenge + eval)`. -/
+def trashExprAt (challenge q : F) (exprEvals : List F) (trash : F) : F :=
+  exprEvals.foldl (fun acc e => acc * challenge + e) 0 - (1 - q) * trash
+
+theorem trashExpressionRow_eq_at (challenge : F) (q : List F) (exprs : List (List F)) (trash : List F) (i : Nat) :
+    trashExpressionRow challenge q exprs trash i =
+      trashExprAt challenge (q.getD i 0) (exprs.map (fun e => e.getD i 0)) (trash.getD i 0) := by
+  unfold trashExpressionRow trashExprAt compressRow
+  rw [List.foldl_map]
 
 end Ring
 
